@@ -30,6 +30,27 @@ theorem conventional_pagers_cells : ∀ f ∈ pagerFamilies, ∀ c ∈ allCells,
   · exact fam5_cells
   · exact fam6_cells
 
+/-- **… and on page 1 addressed without the parameter.** -/
+theorem first_page_bare_cells : ∀ f ∈ pagerFamilies, ∀ n ∈ allN, bareOk f n = true := by
+  intro f hf
+  rw [families_listed] at hf
+  simp only [List.mem_cons, List.not_mem_nil, or_false] at hf
+  rcases hf with h | h | h | h | h | h | h <;> subst h
+  · exact fam0_bare
+  · exact fam1_bare
+  · exact fam2_bare
+  · exact fam3_bare
+  · exact fam4_bare
+  · exact fam5_bare
+  · exact fam6_bare
+
+theorem first_page_bare (f : PagerFamily) (hf : f ∈ pagerFamilies) (n : Nat) (hn : 2 ≤ n ∧ n ≤ 12) :
+    resultBare f n = expected f.pages n 1 := by
+  have hmem : n ∈ allN := by
+    simp only [allN, List.mem_map, List.mem_range]
+    exact ⟨n - 2, by omega, by omega⟩
+  simpa [bareOk] using first_page_bare_cells f hf n hmem
+
 theorem conventional_pagers (f : PagerFamily) (hf : f ∈ pagerFamilies) (n k : Nat)
     (hn : 2 ≤ n ∧ n ≤ 12) (hk : 1 ≤ k ∧ k ≤ n) :
     result f n k = some (expected f.pages n k) := by
